@@ -25,11 +25,55 @@ def run_suite(suite, timeout=7200, workers=None, xmx="16g"):
         pc, b0, b1, b2, k, cyc, st, est, tag, diff = m.groups()
         rec = {"suite": suite, "pc": int(pc), "bytes": [int(b0), int(b1), int(b2)], "edges": int(k), "isa_cost": int(cyc),
                "micro_state": st, "isa_state": est, "tag": tag, "diff": diff.replace('\\"', ''), "raw": line[:700]}
-        if st == est == "Running" and tag == "done" and rec["diff"] == "{}":
+        # C15: both reach a boundary Running but the number of edges is not the documented cost (whatever else differs)
+        if st == est == "Running" and tag == "done" and rec["edges"] != rec["isa_cost"]:
             cost.append(rec)
-        else:
+        # C01: anything but a pure cost difference
+        if not (st == est == "Running" and tag == "done" and rec["diff"] == "{}"):
             sem.append(rec)
     return r, sem, cost
+
+
+def seed_state(sd):
+    """the boundary state MC_Isa!Mk builds from a seed tuple <<pc, bytes, r0, r1, r2, fr, sp, pend, ss, ps>> as a restore op"""
+    pc, bts, r0, r1, r2, fr, sp, pend, ss, ps = sd
+    ram = [(i * 37 + 11) % 256 for i in range(240)]
+    for j, b in enumerate(bts):
+        if pc + j < 240:
+            ram[pc + j] = b
+    inr = [10, 13, 16, 19]
+    misr = 17 if pend else 0
+    def rd(a):
+        if a <= 239:
+            return ram[a]
+        if a == 249:
+            return misr
+        if a >= 252:
+            return inr[a - 252]
+        if a == 242:
+            return 255
+        return 0
+    return {"op": "restore", "state": {"maddr": 6, "ir": 2, "regs": [r0, r1, r2, pc, fr, sp, 90, 165], "prw": 3, "pfw": False, "pei": pend, "pli": False,
+                                       "wait": pc <= 239, "st": "Running", "aout": (pc + 1) % 256, "ac": False, "az": False, "an": False, "lbr": rd(pc),
+                                       "ss": ss, "ps": ps, "ram": ram, "inr": inr, "micr": 1, "misr": misr}}
+
+
+def replay_seeds(v, out, name, every=1):
+    """S->I: run the boundary-to-boundary behaviours TLC explored on the real machine (state rebuilt through the hooks)"""
+    cases = []
+    for n, c in enumerate(vlib.tlc_replay_lines(out)):
+        if n % every:
+            continue
+        cases.append({"pre": [seed_state(c["sd"])], "h": [{"op": "edge", "n": c["k"]}], "s": c["s"], "sd": c["sd"]})
+    if not cases:
+        return 0
+    res = vlib.replay_cases(cases, name)
+    if res["mismatches"]:
+        f = res["first"][0]
+        v.violation("isa:replay", "the real machine, put into the boundary state of seed %s and clocked %s edges, differs from Micro.tla: %s (%d of %d replayed behaviours differ)"
+                    % (f["case"]["sd"], f["case"]["h"][0]["n"], f["diff"][:4], res["mismatches"], res["cases"]), {"seed": f["case"]["sd"], "diff": f["diff"]})
+    return res["cases"]
+
 
 
 DEFINED1 = [b for b in range(2, 240) if not (0x4C <= b <= 0x4F) and not (0xE0 <= b <= 0xEF)]
